@@ -443,6 +443,16 @@ class World:
         (parameter name, value), ..., positionally or — every other
         value of a bit of `keep` — by keyword, as the signature allows."""
         f = getattr(self.api, meth)
+        mk = (keep >> 8) % 4
+        if mk and meth in ('let', 'cofactor', 'compose'):
+            # any mapping will do for the substitution
+            import collections as _c
+            import types as _t
+            wrap_ = [None, _t.MappingProxyType, _c.UserDict,
+                     lambda d_: _c.ChainMap(d_)][mk]
+            pairs = tuple((k_, wrap_(v_) if isinstance(v_, dict) else v_)
+                          for k_, v_ in pairs)
+            self.label('call.mapping_not_dict')
         kw = (keep >> 5) & 1
         if kw:
             self.label('call.keyword')
@@ -454,6 +464,7 @@ class World:
         reusable = all(
             isinstance(v, (dict, set, frozenset, list, tuple, str, int,
                            bool, type(None), type({}.keys())))
+            or type(v).__name__ in ('mappingproxy', 'UserDict', 'ChainMap')
             or hasattr(v, 'node')
             for _, v in pairs)
         if (keep >> 7) & 1 and reusable:
@@ -697,13 +708,15 @@ class World:
         if form == 0:
             kind_ = (mask >> 13) % 4
             qarg = (set(names) if kind_ == 0 else frozenset(names)
-                    if kind_ == 1 else tuple(names) if kind_ == 2
-                    else {x: None for x in names}.keys())
+                    if kind_ == 1 else
+                    tuple(list(names) + list(names)[:(mask >> 11) % 3])
+                    if kind_ == 2 else {x: None for x in names}.keys())
             r = self.call('quantify', keep, ('u', u),
                           ('qvars', qarg), ('forall', fa))
         elif form == 1:
             kind_ = (mask >> 13) % 4
-            qarg = (list(names) if kind_ == 0 else tuple(names)
+            rep_ = list(names) + list(names)[:(mask >> 11) % 3]
+            qarg = (rep_ if kind_ == 0 else tuple(rep_)
                     if kind_ == 1 else frozenset(names) if kind_ == 2
                     else {x: True for x in names}.keys())
             r = self.call('forall' if fa else 'exist', keep,
@@ -825,6 +838,10 @@ class World:
             self.expect_error(
                 lambda: self.api.count(u, len(want) - 1),
                 (ValueError, AssertionError), 'count.too_few_accepted')
+        if i % 7 == 0:
+            big = len(want) + 15000 + i % 5000
+            require(self.api.count(u, big) == base << (big - len(want)),
+                    'count.nvars_wrong', dict(k=big))
         k = len(want) + 1 + i % 3
         c2 = self.api.count(u, k)
         require(c2 == base << (k - len(want)), 'count.nvars_wrong',
@@ -853,6 +870,16 @@ class World:
         p = self.api.pick(u)
         require((p is None) == (tu == 0), 'pick.none_iff_false',
                 dict(p=p))
+        # an assignment maps names to `bool`, so that it can be handed to
+        # `let`: substituting it gives TRUE
+        for d in items[:3] + ([p] if p is not None else []):
+            require(all(type(v) is bool for v in d.values()),
+                    'pick.values_not_bool', dict(d=repr(d)))
+            if d and set(d) >= want:
+                r = self.api.let(dict(d), u)
+                require(self.node(r) == 1, 'pick.let_of_model_not_true',
+                        dict(d=repr(d)))
+                r = None
         care = set(self.order[:1 + i % max(1, len(self.order))])
         cw = care | want
         form = (i >> 6) % 4
@@ -870,6 +897,8 @@ class World:
         for d in self.api.pick_iter(u, care_vars=care_arg):
             require(cw <= set(d), 'pick_iter.care_var_missing',
                     dict(d=d))
+            require(all(type(v) is bool for v in d.values()),
+                    'pick.values_not_bool', dict(d=repr(d)))
             # the total assignments that complete d
             m_d = self.F
             for x, v in d.items():
@@ -1102,7 +1131,7 @@ class World:
         fmt %= 2
         if fmt == 1 and self.kind != 'autoref':
             fmt = 0
-        p = os.path.join(os.getcwd(), 'rt_op' + ['.p', '.json'][fmt])
+        p = os.path.join(os.getcwd(), 'Rt_Op' + ['.p', '.json'][fmt])
         roots = [e.ref for e in es]
         as_dict = variant in (1, 3)
         if as_dict:
@@ -1168,6 +1197,17 @@ class World:
         if not zeros:
             return
         u = zeros[i % len(zeros)]
+        if (i >> 4) & 1:
+            # a process that turns warnings into errors (as the package's
+            # own pytest.ini does): the call fails, nothing changes
+            with warnings.catch_warnings():
+                warnings.simplefilter('error')
+                try:
+                    self.b.decref(u)
+                except UserWarning:
+                    self.label('decref.zero.warning_as_error')
+            require(self.b._ref[u] == 0, 'decref.below_zero')
+            return
         with warnings.catch_warnings(record=True) as w:
             warnings.simplefilter('always')
             self.b.decref(u)
@@ -1657,6 +1697,8 @@ class World:
         'let_compose_late_failure', 'max_nodes_full', 'copy_missing_var',
         'image_unknown_var_late', 'add_var_new_at_used_level',
         'copy_vars_conflict', 'load_pickle_level_conflict',
+        'undeclare_mixed_unknown', 'undeclare_unused_then_used',
+        'gc_roots_unknown_node',
     ]
 
     def op_full(self, a, b):
@@ -1920,6 +1962,36 @@ class World:
         if not used:
             raise ValueError('n/a')
         self.b.undeclare_vars(used[a % len(used)])
+
+    def _bad_undeclare_mixed_unknown(self, a, b):
+        """An unused declared name together with an undeclared one."""
+        unused = self.unused_names()
+        if not unused:
+            raise ValueError('n/a')
+        x = unused[a % len(unused)]
+        names = [x, 'zz_undeclared'] if b % 2 else ['zz_undeclared', x]
+        self.b.undeclare_vars(*names)
+
+    def _bad_undeclare_unused_then_used(self, a, b):
+        """Unused names listed before (and after) one that is in use."""
+        full = {i for i, _, _ in self.b._succ.values()}
+        used = [x for l, x in enumerate(self.order) if l in full]
+        unused = self.unused_names()
+        if not used or not unused:
+            raise ValueError('n/a')
+        names = [unused[a % len(unused)], used[b % len(used)]] + \
+            unused[:(a >> 3) % 2]
+        self.b.undeclare_vars(*names)
+
+    def _bad_gc_roots_unknown_node(self, a, b):
+        """Rooted collection whose roots name a number that is no node,
+        after (or before) unreferenced nodes that are."""
+        zeros = sorted(u for u, c in self.b._ref.items()
+                       if c == 0 and u != 1)
+        missing = max(self.b._succ) + 2 + a % 5
+        roots = zeros[:1 + a % 3] + [missing] if b % 2 else \
+            [missing] + zeros[:1 + a % 3]
+        self.b.collect_garbage(roots)
 
     def _bad_undeclare_unknown(self, a, b):
         self.b.undeclare_vars('zz_undeclared')
